@@ -165,6 +165,9 @@ class Function:
                 if g is not None:
                     # trivial accessor (`return member;`): the call *is* the member
                     return ("mem", ("this",) if obj == ("this",) else obj, g)
+                pe = PURE_EXPRS.get(nd.get("fn")) if not args else None
+                if pe is not None:
+                    return pe if obj == ("this",) else _subst_this(pe, obj)
                 if nd.get("fname") in ("size", "length") and (nd.get("mrec") or "").startswith("std::") and not args:
                     return ("size", obj)
                 if nd.get("fname") == "empty" and (nd.get("mrec") or "").startswith("std::") and not args:
@@ -217,6 +220,38 @@ class Function:
         if k == "LambdaExpr":
             return ("lambda", nd.get("lambda_fn"))
         return ("?", k, i)
+
+
+PURE_EXPRS = {}
+
+
+def _pure_member_expr(t):
+    if not isinstance(t, tuple) or not t:
+        return False
+    h = t[0]
+    if h == "const" or h == "this":
+        return True
+    if h == "mem":
+        return _pure_member_expr(t[1])
+    if h == "size":
+        return _pure_member_expr(t[1])
+    if h == "op" and t[1] not in ("=", "+=", "-=", "*=", "/=", "%=", "<<=", ">>=", "&=", "|=", "^=", ","):
+        return _pure_member_expr(t[2]) and _pure_member_expr(t[3])
+    if h == "un" and t[1] in ("-", "~", "!", "+"):
+        return _pure_member_expr(t[2])
+    if h == "cond":
+        return all(_pure_member_expr(x) for x in t[1:])
+    if h == "idx":
+        return _pure_member_expr(t[1]) and _pure_member_expr(t[2])
+    return False
+
+
+def _subst_this(t, obj):
+    if t == ("this",):
+        return obj
+    if isinstance(t, tuple):
+        return tuple(_subst_this(x, obj) if isinstance(x, tuple) else x for x in t)
+    return t
 
 
 NEGATED_CMP = {"<": ">=", "<=": ">", ">": "<=", ">=": "<", "==": "!=", "!=": "=="}
@@ -337,6 +372,19 @@ class Facts:
                         base = fn.kids(v["id"])
                         if base and fn.n(fn.strip(base[0]))["k"] == "CXXThisExpr":
                             GETTERS[fn.key] = v["m"]
+        # parameterless members whose body is `return <expression over this-members>;` are that expression (so extracting
+        # such an expression into a helper, or inlining the helper, leaves every term unchanged)
+        PURE_EXPRS.clear()
+        for _round in range(2):
+            for fn in self.functions.values():
+                if fn.key in GETTERS or fn.key in PURE_EXPRS:
+                    continue
+                if fn.cls and not fn.params and fn.body is not None and not fn.d.get("ctor") and not fn.d.get("virtual"):
+                    ks = fn.kids(fn.body)
+                    if len(ks) == 1 and fn.n(ks[0])["k"] == "ReturnStmt" and "value" in fn.n(ks[0]):
+                        t = fn.term(fn.n(ks[0])["value"])
+                        if _pure_member_expr(t):
+                            PURE_EXPRS[fn.key] = t
         # override relation
         self.overriders = {}
         for r in self.records.values():
@@ -403,6 +451,18 @@ class Facts:
                             if isinstance(e, dict) and (fn.cls, e.get("init_field")) in renames:
                                 e["init_field"] = renames[(fn.cls, e["init_field"])]
         return {"%s::%s" % k: v for k, v in renames.items()}
+
+    def method_value(self, qn, obj=("this",)):
+        """The value term a call `obj.qn()` of a parameterless method yields under the current tree: the member it returns
+        (trivial accessor), the member expression it returns (pure expression), or the call itself."""
+        for fn in self.by_qn.get(qn, []):
+            if fn.params:
+                continue
+            if fn.key in GETTERS:
+                return ("mem", obj, GETTERS[fn.key])
+            if fn.key in PURE_EXPRS:
+                return PURE_EXPRS[fn.key] if obj == ("this",) else _subst_this(PURE_EXPRS[fn.key], obj)
+        return ("call", qn, obj, ())
 
     # lookups that fail as analysis-broken when an anchor has vanished
     def fn(self, qn, nparams=None, const=None, pred=None):
